@@ -212,6 +212,67 @@ def params_case(est_name):
   return fn
 
 
+def fit_forwards_case(est_name):
+  """fit(pairs, y, calibration_params=cp) calibrates with exactly cp -- on every fit of the object, also a second one with other parameters"""
+  def fn(ctx):
+    cls = mahal.classes()[est_name]
+    pairs = np.array([[[0.], [1.]], [[0.], [2.]], [[0.], [3.]], [[1.], [5.]]])
+    y = np.array([1, -1, 1, -1])
+    which = int(ctx.integer('which', 0, 3))
+    strategy = ['accuracy', 'f_beta', 'max_tpr', 'max_tnr'][which]
+    val = ctx.real('value')
+    ctx.assume(ctx.and_(ctx.ge(val, 0, tol=0.0), ctx.le(val, 1, tol=0.0)))
+    params = {'strategy': strategy}
+    if strategy in ('max_tpr', 'max_tnr'):
+      params['min_rate'] = val
+    elif strategy == 'f_beta':
+      params['beta'] = val
+    second = {'strategy': 'max_tnr', 'min_rate': 0.25} if strategy != 'max_tnr' else {'strategy': 'f_beta', 'beta': 2.0}
+    calls = []
+
+    def fake_fit(self, *a, **k):
+      self.components_ = np.array([[1.0]])
+      return self
+
+    def rec(self, pv, yv, **kw):
+      calls.append((pv, yv, dict(kw)))
+      self.threshold_ = 1.5
+      return self
+    est = cls()
+    with _Patch(isinstance=_sym_isinstance) if ctx.symbolic else _Null():
+      old_fit, old_cal = cls._fit, cls.calibrate_threshold
+      cls._fit, cls.calibrate_threshold = fake_fit, rec
+      try:
+        est.fit(pairs, y, calibration_params=dict(params))
+        n1 = len(calls)
+        est.fit(pairs, y, calibration_params=dict(second))
+        n2 = len(calls)
+        est.fit(pairs, y)
+      finally:
+        cls._fit, cls.calibrate_threshold = old_fit, old_cal
+    ctx.require('every_fit_calibrates_once', ctx.cond(n1 == 1 and n2 == 2 and len(calls) == 3))
+    if len(calls) == 3:
+      import inspect
+      defaults = {k_: v_.default for k_, v_ in inspect.signature(old_cal).parameters.items() if v_.default is not inspect.Parameter.empty}
+
+      def same(kw, want):
+        # effective parameters: what is not passed takes calibrate_threshold's own default (passing a default explicitly is the same call)
+        kw, want = dict(defaults, **kw), dict(defaults, **want)
+        conds = [ctx.cond(set(kw) == set(want))]
+        if set(kw) == set(want):
+          for k_, v_ in want.items():
+            if v_ is None or isinstance(v_, str) or kw[k_] is None or isinstance(kw[k_], str):
+              conds.append(ctx.cond(type(kw[k_]) is type(v_) and kw[k_] == v_))
+            else:
+              conds.append(ctx.eq(kw[k_], v_, tol=0.0))
+        return ctx.and_(*conds)
+      ctx.require('calibration_uses_the_given_parameters', same(calls[0][2], params))
+      ctx.require('second_fit_calibrates_with_its_own_parameters', same(calls[1][2], second))
+      ctx.require('default_calibration_when_none_given', same(calls[2][2], {}))
+      ctx.require('calibration_on_the_training_pairs', ctx.cond(all(np.array_equal(np.asarray(c[0], dtype=float), pairs) and np.array_equal(np.asarray(c[1]), y) for c in calls)))
+  return fn
+
+
 def float_boundary_case(est_name):
   """NOT solver-decided: rates compared in float64 at exact boundaries (min_rate = k/10 with 5 or 10
   negatives / positives) -- brute-force oracle in exact rational arithmetic, concrete run"""
@@ -311,6 +372,11 @@ def cases(tier, seed):
     out.append(case('params_%s' % name, params_case(name), FUNCS,
                     '%s.fit(calibration_params): 4 strategies x {arbitrary real, None, str, nan, +-inf, complex, list, -0.2, 1.2} for min_rate/beta, 6 invalid strategies' % name,
                     cost=3, validate=15))
+  for name in mahal.PAIRS:
+    out.append(case('fit_forwards_%s' % name, fit_forwards_case(name), FUNCS,
+                    '%s.fit(pairs, y, calibration_params): 4 strategies, min_rate / beta arbitrary in [0, 1] (incl. exactly 0), three fits of one object (given parameters, '
+                    'other parameters, none): the calibration step receives exactly the given parameters each time (_fit and calibrate_threshold replaced by recorders)' % name,
+                    cost=3, validate=10))
   return out
 
 
